@@ -255,6 +255,7 @@ def run(ctx, ncases, aspects, label, parallel=None, failures=False, iters=False,
         again = [i for i, r in enumerate(results) if r.get('timeout') and 'harness_error' not in r]
         if not again:
             break
+        again = again[:8]
         redo = pipelib.run_cases([cases[i] for i in again], workers=4)
         for i, r in zip(again, redo):
             r['retried'] = attempt + 1
